@@ -1,6 +1,7 @@
 import Ruint.Lemmas.AddmulN
 import Ruint.Lemmas.ShiftKernels
 import Ruint.Lemmas.Add
+import Ruint.Gen.AddmulN
 
 /-!
 # C15 — limb-slice multiply, accumulate, add, subtract, shift, compare kernels are exact
@@ -238,6 +239,61 @@ theorem cmp_any_length (l r : List ℕ) (hl : AllLt l) (hr : AllLt r) :
   rw [cmpLimbs_take, cmpLimbs_spec W _ _ (by simp) (fun y hy => hl y (List.mem_of_mem_take hy))
     (fun y hy => hr y (List.mem_of_mem_take hy)), valB_W, valB_W]
   cases compare (val _) (val _) <;> simp [Ordering.then]
+
+/-! ## generated facts (G): the unrolled bodies as re-extracted from `src/algorithms/mul.rs` on this run
+
+`Ruint/Gen/AddmulN.lean` is rewritten from the current source by `tools/props/c15.py: translate` before
+every build. These theorems tie the *source text* of `addmul_1..4` (which limb each `mac` targets, which
+operand limbs it multiplies, where the carry goes) to the specification, independently of any sampled
+input: a changed index or a dropped carry in the source breaks the proof. -/
+
+theorem gen_addmul1_spec (l0 a0 b0 : ℕ) (hl : AllLt [l0]) :
+    (Gen.AddmulN.addmul1 W l0 a0 b0).length = 1 ∧ AllLt (Gen.AddmulN.addmul1 W l0 a0 b0)
+    ∧ val (Gen.AddmulN.addmul1 W l0 a0 b0) = (val [l0] + val [a0] * val [b0]) % W ^ 1 := by
+  have e : Gen.AddmulN.addmul1 W l0 a0 b0 = mulLow W [l0] [a0] [b0] := by
+    simp [Gen.AddmulN.addmul1, mulLow, addmulNx1Go, mac, Nat.mul_comm]
+  obtain ⟨m1, m2, m3⟩ := mulLow_mod W W_pos [l0] [a0] [b0] (by simp) hl
+  simp only [valB_W] at m1
+  rw [e]; exact ⟨m2, m3, m1⟩
+
+theorem gen_addmul2_spec (l0 l1 a0 a1 b0 b1 : ℕ) (hl : AllLt [l0, l1]) :
+    (Gen.AddmulN.addmul2 W l0 l1 a0 a1 b0 b1).length = 2
+    ∧ AllLt (Gen.AddmulN.addmul2 W l0 l1 a0 a1 b0 b1)
+    ∧ val (Gen.AddmulN.addmul2 W l0 l1 a0 a1 b0 b1)
+        = (val [l0, l1] + val [a0, a1] * val [b0, b1]) % W ^ 2 := by
+  have e : Gen.AddmulN.addmul2 W l0 l1 a0 a1 b0 b1 = mulLow W [l0, l1] [a0, a1] [b0, b1] := by
+    simp [Gen.AddmulN.addmul2, mulLow, addmulNx1Go, mac, Nat.mul_comm]
+  obtain ⟨m1, m2, m3⟩ := mulLow_mod W W_pos [l0, l1] [a0, a1] [b0, b1] (by simp) hl
+  simp only [valB_W] at m1
+  rw [e]; exact ⟨m2, m3, m1⟩
+
+theorem gen_addmul3_spec (l0 l1 l2 a0 a1 a2 b0 b1 b2 : ℕ) (hl : AllLt [l0, l1, l2]) :
+    (Gen.AddmulN.addmul3 W l0 l1 l2 a0 a1 a2 b0 b1 b2).length = 3
+    ∧ AllLt (Gen.AddmulN.addmul3 W l0 l1 l2 a0 a1 a2 b0 b1 b2)
+    ∧ val (Gen.AddmulN.addmul3 W l0 l1 l2 a0 a1 a2 b0 b1 b2)
+        = (val [l0, l1, l2] + val [a0, a1, a2] * val [b0, b1, b2]) % W ^ 3 := by
+  have e : Gen.AddmulN.addmul3 W l0 l1 l2 a0 a1 a2 b0 b1 b2
+      = mulLow W [l0, l1, l2] [a0, a1, a2] [b0, b1, b2] := by
+    simp [Gen.AddmulN.addmul3, mulLow, addmulNx1Go, mac, Nat.mul_comm]
+  obtain ⟨m1, m2, m3⟩ := mulLow_mod W W_pos [l0, l1, l2] [a0, a1, a2] [b0, b1, b2] (by simp) hl
+  simp only [valB_W] at m1
+  rw [e]; exact ⟨m2, m3, m1⟩
+
+theorem gen_addmul4_spec (l0 l1 l2 l3 a0 a1 a2 a3 b0 b1 b2 b3 : ℕ) (hl : AllLt [l0, l1, l2, l3]) :
+    (Gen.AddmulN.addmul4 W l0 l1 l2 l3 a0 a1 a2 a3 b0 b1 b2 b3).length = 4
+    ∧ AllLt (Gen.AddmulN.addmul4 W l0 l1 l2 l3 a0 a1 a2 a3 b0 b1 b2 b3)
+    ∧ val (Gen.AddmulN.addmul4 W l0 l1 l2 l3 a0 a1 a2 a3 b0 b1 b2 b3)
+        = (val [l0, l1, l2, l3] + val [a0, a1, a2, a3] * val [b0, b1, b2, b3]) % W ^ 4 := by
+  have e : Gen.AddmulN.addmul4 W l0 l1 l2 l3 a0 a1 a2 a3 b0 b1 b2 b3
+      = mulLow W [l0, l1, l2, l3] [a0, a1, a2, a3] [b0, b1, b2, b3] := by
+    simp [Gen.AddmulN.addmul4, mulLow, addmulNx1Go, mac, Nat.mul_comm]
+  obtain ⟨m1, m2, m3⟩ :=
+    mulLow_mod W W_pos [l0, l1, l2, l3] [a0, a1, a2, a3] [b0, b1, b2, b3] (by simp) hl
+  simp only [valB_W] at m1
+  rw [e]; exact ⟨m2, m3, m1⟩
+
+/-- the lengths `addmul_n` sends to an unrolled body are exactly the arms the model has. -/
+theorem gen_dispatch : Gen.AddmulN.unrolledLengths = [1, 2, 3, 4] := rfl
 
 /-! ## non-vacuity: concrete branch witnesses evaluated by the kernel -/
 
